@@ -61,6 +61,7 @@ pub fn run_twin(seed: u64, r: &mut Report, stats: &mut crate::RunStats) {
     prof.extra_vamm_pct = 0;
     prof.w_ops = [34, 12, 6, 8, 8, 5, 5, 12, 7, 1, 0];
     prof.malformed_addr_pct = 50;
+    prof.foreign_coin_pct = 8;
     prof.w_macro = [0, 3, 2, 1, 1, 0, 8, 1, 1, 1, 1];
     prof.macro_pct = 18;
     prof.steps = (40, 110);
